@@ -384,6 +384,12 @@ class Env:
                 rec.violation("refused-with-foreign-error-class", dict(w, got=val, rule=exp.rule),
                               error=val, **fields)
                 return False
+            if val not in exp.classes:
+                # the literal tables are strict (pytest.raises(OffsetUnitCalculusError)); the rule says
+                # which classes its source accepts
+                rec.violation("refused-with-other-pint-error-class",
+                              dict(w, got=val, accepted=list(exp.classes), rule=exp.rule), error=val, **fields)
+                return False
             return True
         if status == "raise":
             if val == "ZeroDivisionError":
@@ -701,8 +707,12 @@ def power_forms(env, L, exps, qexps):
         binary(env, "**", 2, L)          # must be refused: a dimensional exponent
     else:
         # dimensionless (generated) unit: pint computes 2 ** root value; keep the exponent small
-        small = env.mq(L.x * 0 + (F(3) if env.exact else 3.0), L.units)
-        binary(env, "**", 2, small)
+        t = env.table
+        if t.shape(L) in ("OFF", "ABS", "DELTA"):
+            u = t.single(L)
+            x3 = (F(3) - u.b) / u.a                       # root value exactly 3
+            small = env.mq(L.x * 0 + (x3 if env.exact else float(x3)), L.units)
+            binary(env, "**", 2, small)
 
 
 # ---------------------------------------------------------------------------
